@@ -4,6 +4,7 @@ import (
 	"context"
 	"encoding/json"
 	"errors"
+	"fmt"
 	"sort"
 	"testing"
 
@@ -330,7 +331,7 @@ func c14Neighbour() model.Item {
 }
 
 var c14Scenarios = []string{"input-after-put", "output-of-get", "output-of-scan", "output-of-query", "update-values-and-output", "kept-output-vs-later-write", "batch-write-input", "delete-old-output", "condition-failure-item",
-	"last-evaluated-key", "upsert-key-input", "native-updater-values", "append-to-output-after-later-write", "native-upsert-key-input"}
+	"last-evaluated-key", "upsert-key-input", "native-updater-values", "append-to-output-after-later-write", "native-upsert-key-input", "delete-old-output-after-update", "last-evaluated-key-strings"}
 
 // c14BinTable: a table whose key attributes are binary (mutable byte slices).
 func c14BinTable() *model.Schema {
@@ -344,6 +345,29 @@ func c14BinItems(attrs model.Item) []model.Item {
 		it := model.CloneItem(attrs)
 		it["pk"] = model.Bin([]byte{1, 2})
 		it["sk"] = model.Bin([]byte{0, byte(i + 1)})
+		out = append(out, it)
+	}
+	return out
+}
+
+// c14KeyTable / c14KeyItems: the table of the LastEvaluatedKey scenarios, with
+// binary keys or with a string hash key and a number sort key.
+func c14KeyTable(scenario string) *model.Schema {
+	if scenario == "last-evaluated-key-strings" {
+		return &model.Schema{Table: "tblb", Hash: "pk", Range: "sk", Attrs: map[string]string{"pk": "S", "sk": "N"}, Billing: "PAY_PER_REQUEST"}
+	}
+	return c14BinTable()
+}
+
+func c14KeyItems(scenario string, attrs model.Item) []model.Item {
+	if scenario != "last-evaluated-key-strings" {
+		return c14BinItems(attrs)
+	}
+	var out []model.Item
+	for i := 0; i < 3; i++ {
+		it := model.CloneItem(attrs)
+		it["pk"] = model.Str("partition")
+		it["sk"] = model.Num(fmt.Sprint(i + 1))
 		out = append(out, it)
 	}
 	return out
@@ -432,8 +456,9 @@ func runC14(c c14Case, pokes *int) (fl *failure) {
 			}
 			return differs("after mutating a Query output", get(), want)
 		case "update-values-and-output":
-			vals := drv.ToV1Item(model.Item{":v": model.Map(map[string]model.AV{"k": model.Str("v"), "l": model.List(model.Num("1"), model.Bin([]byte{1, 2}))})})
-			out, err := cl.UpdateItem(&ddb1.UpdateItemInput{TableName: aws1.String("tbl"), Key: drv.ToV1Item(key), UpdateExpression: aws1.String("SET upd = :v"), ExpressionAttributeValues: vals})
+			vals := drv.ToV1Item(model.Item{":v": model.Map(map[string]model.AV{"k": model.Str("v"), "l": model.List(model.Num("1"), model.Bin([]byte{1, 2}))}),
+				":bs": model.BinSet([]byte{0x10, 0}, []byte{0x11}), ":ss": model.StrSet("p", "q"), ":ns": model.NumSet("1", "2")})
+			out, err := cl.UpdateItem(&ddb1.UpdateItemInput{TableName: aws1.String("tbl"), Key: drv.ToV1Item(key), UpdateExpression: aws1.String("SET upd = :v ADD addbs :bs, addss :ss, addns :ns"), ExpressionAttributeValues: vals})
 			if err != nil {
 				return nil
 			}
@@ -452,9 +477,9 @@ func runC14(c c14Case, pokes *int) (fl *failure) {
 			cur, _ := cl.GetItem(&ddb1.GetItemInput{TableName: aws1.String("tbl"), Key: drv.ToV1Item(key)})
 			pokeV1Map(cur.Item, p)
 			return differs("a previously returned item after later writes", drv.FromV1Item(out.Item), kept)
-		case "last-evaluated-key":
-			d.Apply(model.Op{Kind: "CreateTable", Schema: c14BinTable()})
-			items := c14BinItems(c.Item)
+		case "last-evaluated-key", "last-evaluated-key-strings":
+			d.Apply(model.Op{Kind: "CreateTable", Schema: c14KeyTable(c.Scenario)})
+			items := c14KeyItems(c.Scenario, c.Item)
 			for _, it := range items {
 				if _, err := cl.PutItem(&ddb1.PutItemInput{TableName: aws1.String("tblb"), Item: drv.ToV1Item(it)}); err != nil {
 					return nil
@@ -479,7 +504,7 @@ func runC14(c c14Case, pokes *int) (fl *failure) {
 			start := drv.ToV1Item(drv.FromV1Item(sc.LastEvaluatedKey))
 			pokeV1Map(sc.LastEvaluatedKey, p)
 			q, err := cl.Query(&ddb1.QueryInput{TableName: aws1.String("tblb"), KeyConditionExpression: aws1.String("pk = :k"), Limit: aws1.Int64(1), ExclusiveStartKey: start,
-				ExpressionAttributeValues: map[string]*ddb1.AttributeValue{":k": {B: []byte{1, 2}}}})
+				ExpressionAttributeValues: drv.ToV1Item(model.Item{":k": items[0]["pk"]})})
 			if err == nil {
 				pokeV1Map(q.LastEvaluatedKey, p)
 				pokeV1Map(start, p)
@@ -577,7 +602,15 @@ func runC14(c c14Case, pokes *int) (fl *failure) {
 			pokeV1Map(vals, p)
 			pokeV1Map(out.Attributes, p)
 			return differs("after mutating the values handed to a native updater", get(), exp)
-		case "delete-old-output":
+		case "delete-old-output", "delete-old-output-after-update":
+			if c.Scenario == "delete-old-output-after-update" {
+				// every attribute has passed through the expression interpreter once
+				if _, err := cl.UpdateItem(&ddb1.UpdateItemInput{TableName: aws1.String("tbl"), Key: drv.ToV1Item(key), UpdateExpression: aws1.String("SET upd = :v"),
+					ExpressionAttributeValues: drv.ToV1Item(model.Item{":v": model.Bool(true)})}); err != nil {
+					return nil
+				}
+				want["upd"] = model.Bool(true)
+			}
 			out, err := cl.DeleteItem(&ddb1.DeleteItemInput{TableName: aws1.String("tbl"), Key: drv.ToV1Item(key), ReturnValues: aws1.String("ALL_OLD")})
 			if err != nil {
 				return nil
@@ -639,8 +672,9 @@ func runC14(c c14Case, pokes *int) (fl *failure) {
 		}
 		return differs("after mutating a Query output", get(), want)
 	case "update-values-and-output":
-		vals := drv.ToV2Item(model.Item{":v": model.Map(map[string]model.AV{"k": model.Str("v"), "l": model.List(model.Num("1"), model.Bin([]byte{1, 2}))})})
-		out, err := cl.UpdateItem(ctx, &ddb2.UpdateItemInput{TableName: aws.String("tbl"), Key: drv.ToV2Item(key), UpdateExpression: aws.String("SET upd = :v"), ExpressionAttributeValues: vals})
+		vals := drv.ToV2Item(model.Item{":v": model.Map(map[string]model.AV{"k": model.Str("v"), "l": model.List(model.Num("1"), model.Bin([]byte{1, 2}))}),
+			":bs": model.BinSet([]byte{0x10, 0}, []byte{0x11}), ":ss": model.StrSet("p", "q"), ":ns": model.NumSet("1", "2")})
+		out, err := cl.UpdateItem(ctx, &ddb2.UpdateItemInput{TableName: aws.String("tbl"), Key: drv.ToV2Item(key), UpdateExpression: aws.String("SET upd = :v ADD addbs :bs, addss :ss, addns :ns"), ExpressionAttributeValues: vals})
 		if err != nil {
 			return nil
 		}
@@ -667,9 +701,9 @@ func runC14(c c14Case, pokes *int) (fl *failure) {
 		}
 		pokeV2Map(cf.Item, p)
 		return differs("after mutating the item carried by a ConditionalCheckFailedException", get(), want)
-	case "last-evaluated-key":
-		d.Apply(model.Op{Kind: "CreateTable", Schema: c14BinTable()})
-		items := c14BinItems(c.Item)
+	case "last-evaluated-key", "last-evaluated-key-strings":
+		d.Apply(model.Op{Kind: "CreateTable", Schema: c14KeyTable(c.Scenario)})
+		items := c14KeyItems(c.Scenario, c.Item)
 		for _, it := range items {
 			if _, err := cl.PutItem(ctx, &ddb2.PutItemInput{TableName: aws.String("tblb"), Item: drv.ToV2Item(it)}); err != nil {
 				return nil
@@ -694,7 +728,7 @@ func runC14(c c14Case, pokes *int) (fl *failure) {
 		start := drv.ToV2Item(drv.FromV2Item(sc.LastEvaluatedKey))
 		pokeV2Map(sc.LastEvaluatedKey, p)
 		q, err := cl.Query(ctx, &ddb2.QueryInput{TableName: aws.String("tblb"), KeyConditionExpression: aws.String("pk = :k"), Limit: aws.Int32(1), ExclusiveStartKey: start,
-			ExpressionAttributeValues: map[string]types2.AttributeValue{":k": &types2.AttributeValueMemberB{Value: []byte{1, 2}}}})
+			ExpressionAttributeValues: drv.ToV2Item(model.Item{":k": items[0]["pk"]})})
 		if err == nil {
 			pokeV2Map(q.LastEvaluatedKey, p)
 			pokeV2Map(start, p)
@@ -786,7 +820,14 @@ func runC14(c c14Case, pokes *int) (fl *failure) {
 		pokeV2Map(vals, p)
 		pokeV2Map(out.Attributes, p)
 		return differs("after mutating the values handed to a native updater", get(), exp)
-	case "delete-old-output":
+	case "delete-old-output", "delete-old-output-after-update":
+		if c.Scenario == "delete-old-output-after-update" {
+			if _, err := cl.UpdateItem(ctx, &ddb2.UpdateItemInput{TableName: aws.String("tbl"), Key: drv.ToV2Item(key), UpdateExpression: aws.String("SET upd = :v"),
+				ExpressionAttributeValues: drv.ToV2Item(model.Item{":v": model.Bool(true)})}); err != nil {
+				return nil
+			}
+			want["upd"] = model.Bool(true)
+		}
 		out, err := cl.DeleteItem(ctx, &ddb2.DeleteItemInput{TableName: aws.String("tbl"), Key: drv.ToV2Item(key), ReturnValues: types2.ReturnValueAllOld})
 		if err != nil {
 			return nil
